@@ -852,6 +852,12 @@ func (tc *typechecker) binaryOp(expr1 ast.Expression, op ast.OperatorType, expr2
 		if !(t1.Untyped() && t1.IsNumeric() || !t1.Untyped() && t1.IsInteger()) {
 			return nil, fmt.Errorf("shift of type %s", t1)
 		}
+		if t1.Untyped() && t1.IsConstant() && !t2.IsConstant() {
+			// The untyped constant left operand of a non-constant shift must have an integer value.
+			if _, err := t1.Constant.binaryOp(ast.OperatorLeftShift, int64Const(0)); err != nil {
+				return nil, fmt.Errorf("shifted operand %s must be integer", t1.Constant)
+			}
+		}
 		if t2.Nil() {
 			return nil, errors.New("cannot convert nil to type uint")
 		}
